@@ -287,6 +287,29 @@ def schema_typing(tier, seed):
                     elif expr.startswith('count('):
                         cause = 'node counts (consequence of the two selection findings)'
                     bad(f'supplying the schema changes which nodes a path selects ({cause})', expr=expr, xsd=version, without=repr(ka)[:100], with_schema=repr(kb)[:100])
+            # call forms: the module-level select / iter_select and Selector give the same typed values; a prebuilt node tree used with several contexts keeps them
+            from elementpath import select as ep_select, iter_select as ep_iter_select, Selector, XPathContext as _Ctx
+            proxy = schema.xpath_proxy if hasattr(schema, 'xpath_proxy') else schema
+            probe = 'data((//*[not(*)][string(.) != ""])[1])'
+            try:
+                outs = {'select': ep_select(ET.XML(xml), probe, parser=XPath31Parser, schema=proxy),
+                        'iter_select': list(ep_iter_select(ET.XML(xml), probe, parser=XPath31Parser, schema=proxy)),
+                        'Selector.select': Selector(probe, parser=XPath31Parser, schema=proxy).select(ET.XML(xml)),
+                        'Selector.iter_select': list(Selector(probe, parser=XPath31Parser, schema=proxy).iter_select(ET.XML(xml)))}
+                n += 4
+                base = [(type(x).__name__, str(x)) for x in outs['select']]
+                for k, v in outs.items():
+                    if [(type(x).__name__, str(x)) for x in v] != base:
+                        bad(f'{k}(root, path, schema=proxy) does not give the typed value that select gives', xsd=version, got=repr(v)[:80], select=repr(outs['select'])[:80])
+                tree = get_node_tree(ET.ElementTree(ET.XML(xml)))
+                tok = XPath31Parser(schema=proxy).parse(probe)
+                runs = [tok.evaluate(_Ctx(tree, schema=proxy)) for _ in range(3)]
+                n += 3
+                if any([(type(x).__name__, str(x)) for x in r] != base for r in runs):
+                    bad('a prebuilt node tree used with a second context for the same schema loses its type annotations', xsd=version,
+                        runs=repr([[type(x).__name__ for x in r] for r in runs])[:120])
+            except Exception as e:      # noqa
+                bad('the call forms with a schema raise', xsd=version, err=f'{type(e).__name__}: {str(e)[:100]}')
     fails = [{'key': k, 'items': it[:5], 'count': len(it), 'what': f'{k}: e.g. {it[0]}'} for k, it in fam.items()]
     return {'evaluations': n, 'distinct': n, 'exhaustive': False,
             'scope': f'one generated schema per XSD version (1.0, 1.1) over {len(SAMPLES) - 1} built-in simple types, {len(DERIVED)} restrictions (two-level), '
